@@ -4,8 +4,8 @@ CG = dict(units=["type.c"], mode="dfcc", enforce="gen_expr", rec=True, replace=[
 META = dict(
     level="proof",
     claim="Bit-field reads return exactly the field's bits (zero/sign extended), bit-field writes replace exactly those bits of the storage unit and no other bit or byte, for every storage size, signedness, position, width, address, memory content and value; scalar loads/stores touch exactly the object's bytes (shared with C01.4). Real gen_expr/gen_addr/load/store on the ghost byte memory, recursive contract.",
-    note="Trusted: CBMC, ghost x86 machine, the layout invariant of C08 as precondition. Also: whole-aggregate assignment and zero fill write exactly the object's bytes (per size), and the local frame layout is overlap-free and aligned (3 locals, bounded). Not covered in this revision: member lookup through anonymous aggregates, VLA/alloca, pointer arithmetic scaling.",
-    functions=["codegen.c:gen_expr", "codegen.c:gen_addr", "codegen.c:load", "codegen.c:store", "codegen.c:push", "codegen.c:pop", "codegen.c:assign_lvar_offsets", "codegen.c:align_to", "parse.c:new_add", "parse.c:new_sub"],
+    note="Trusted: CBMC, ghost x86 machine, the layout invariant of C08 as precondition. Also: whole-aggregate assignment and zero fill write exactly the object's bytes (per size), and the local frame layout is overlap-free and aligned (3 locals, bounded). _Bool bit-fields are read zero-extended. Not covered in this revision: 64-bit wide bit-fields' masks (host shift semantics, DESIGN I.4), member lookup through anonymous aggregates, VLA/alloca, pointer arithmetic scaling.",
+    functions=["parse.c:struct_decl", "codegen.c:gen_expr", "codegen.c:gen_addr", "codegen.c:load", "codegen.c:store", "codegen.c:push", "codegen.c:pop", "codegen.c:assign_lvar_offsets", "codegen.c:align_to", "parse.c:new_add", "parse.c:new_sub"],
     trusted_base=["CBMC 6.11", "spec/x86_ghost.h"],
     assumptions=["the pointer operand and the assigned value are abstract side-effect-free expressions"],
 )
@@ -33,4 +33,10 @@ def jobs(tier):
     for (a0, a1, a2) in ((1, 4, 8), (8, 1, 2), (16, 1, 4), (2, 32, 1)):
         js.append(Job(name=f"frame-{a0}-{a1}-{a2}", src="frame.c", group="C04.5 frame layout", defs={"A0": str(a0), "A1": str(a1), "A2": str(a2)}, unwind=12, unwindset=[f"cg_init.{k}:300" for k in range(4)],
                       bounded="3 locals per function", sample=f"assign_lvar_offsets: three locals with alignments {a0},{a1},{a2}, symbolic sizes", **PL))
+    # the layout invariant (fields inside their unit, no overlap) is what makes "exactly its bits" meaningful: four of the
+    # C08 struct-layout jobs are part of this property's check as well (the full set runs under C08)
+    for (a, b, c) in ((8, 2, 4), (4, 4, 4), (1, 4, 2), (2, 8, 1)):
+        js.append(Job(name=f"layout-struct-{a}-{b}-{c}", src="../C08/layout.c", group="C04.4 bit-field placement", defs={"S0": str(a), "S1": str(b), "S2": str(c)}, units=["type.c", "codegen.c"],
+                      mode="legacy", replace=["struct_union_decl"], cut=["error", "error_tok", "error_at", "verror_at", "warn_tok"], unwind=5, timeout=600, replay=None,
+                      bounded="3 members per aggregate", sample=f"struct_decl on up to 3 members with type sizes {a},{b},{c}: bit-fields inside their unit, no overlap"))
     return js
